@@ -74,6 +74,7 @@ func sortedMD(md metadata.MD, keys map[string]bool) string {
 }
 
 func runC13(o *hx.Out, r *hx.Rand, thorough bool) {
+	attachMode := 0
 	type hseen struct {
 		md       metadata.MD
 		peerAuth bool
@@ -93,8 +94,26 @@ func runC13(o *hx.Out, r *hx.Rand, thorough bool) {
 		Unary:  func(ctx context.Context, req *hx.Msg) (*hx.Msg, error) { record(ctx); return &hx.Msg{}, nil },
 		Stream: func(kind string, ss grpc.ServerStream) error { record(ss.Context()); return nil },
 	}
-	hs := httpgrpc.NewServer()
-	hs.RegisterService(hx.Desc(hx.SvcName), svc)
+	hs0 := httpgrpc.NewServer()
+	hs0.RegisterService(hx.Desc(hx.SvcName), svc)
+	// the same service mounted method by method through the exported per-method constructors; requests
+	// go alternately to either mounting: what the handler sees does not depend on how it was mounted
+	pm := http.NewServeMux()
+	pd := hx.Desc(hx.SvcName)
+	for i := range pd.Methods {
+		pm.HandleFunc("/"+hx.SvcName+"/"+pd.Methods[i].MethodName, httpgrpc.HandleMethod(svc, hx.SvcName, &pd.Methods[i], nil))
+	}
+	for i := range pd.Streams {
+		pm.HandleFunc("/"+hx.SvcName+"/"+pd.Streams[i].StreamName, httpgrpc.HandleStream(svc, hx.SvcName, &pd.Streams[i], nil))
+	}
+	var nreq int32
+	hs := http.HandlerFunc(func(w http.ResponseWriter, rq *http.Request) {
+		if atomic.AddInt32(&nreq, 1)%2 == 0 {
+			pm.ServeHTTP(w, rq)
+		} else {
+			hs0.ServeHTTP(w, rq)
+		}
+	})
 	plain := httptest.NewServer(hs)
 	defer plain.Close()
 	tlsS := httptest.NewTLSServer(hs)
@@ -155,7 +174,35 @@ func runC13(o *hx.Out, r *hx.Rand, thorough bool) {
 						outTerm := "None"
 						keys := map[string]bool{}
 						if cm != nil {
-							ctx = metadata.NewOutgoingContext(ctx, cm.Copy())
+							// the same outgoing metadata attached in the ways callers attach it: all at once, or a base
+							// MD plus pairs appended afterwards (AppendToOutgoingContext keeps those apart from the MD)
+							attachMode++
+							if attachMode%2 == 0 {
+								ctx = metadata.NewOutgoingContext(ctx, cm.Copy())
+							} else {
+								var ks []string
+								for k := range cm {
+									ks = append(ks, k)
+								}
+								sort.Strings(ks)
+								base := metadata.MD{}
+								var kv []string
+								for i, k := range ks {
+									if i == 0 && attachMode%4 == 1 {
+										base[k] = append([]string{}, cm[k]...)
+										continue
+									}
+									for _, v := range cm[k] {
+										kv = append(kv, k, v)
+									}
+								}
+								if len(base) > 0 {
+									ctx = metadata.NewOutgoingContext(ctx, base)
+								}
+								if len(kv) > 0 {
+									ctx = metadata.AppendToOutgoingContext(ctx, kv...)
+								}
+							}
 							all := map[string]bool{}
 							for k := range cm {
 								all[k] = true
